@@ -529,6 +529,7 @@ class Check:
                 out.update(native_replay(grp, pkgdir=pk, scale_depth=sd))
         except Exception as e:
             self.notes.append('sample replay could not run: %s' % e)
+            self.replay_broken = True
             return 0, 0
         okc = sum(1 for n, _, _ in cases if out.get(n, ('', ''))[0] == 'PASS')
         jobof = {cs[0]: s.get('job', 'sample') for cs, s in zip(cases, pool)}
@@ -632,4 +633,7 @@ class Check:
             cov['queries']['sat'] + cov['queries']['unsat'] + cov['queries']['unknown'], cov['solver_s'], wall, len(self.violations)))
         if self.violations:
             return 1
+        if getattr(self, 'replay_broken', False):
+            print('tool error (no verdict): the native replay could not be built/run: %s' % _short(self.notes[-1] if self.notes else '', 500))
+            return 2
         return 0
